@@ -476,14 +476,6 @@ Proof.
   exact (proj1 (nonempty_cons_exact _ _ _ E1) eq_refl).
 Qed.
 
-(* Not proved here (checked per instance by the judge, kind "model-agree", whenever "before" carries the guard):
-   the two-system PR form is complete when every state of cs_before has a successor in cs_after. *)
-Definition pr2_complete_under_guard_full : Prop :=
-  forall n B C q, all_ge B -> all_ge C -> dimc n B -> dimc (n + n) C ->
-  (forall x, sat_cons B x -> exists p, sat_cons C p /\ forall j, (j < n)%nat -> p (n + j)%nat == x j) ->
-  (exists x, sat_cons B x) ->
-  ranking n q (rel2 n B C) -> exists u, sat_cons (pr_mip n B C) u.
-
 (* ---------- the hypotheses of the soundness / checker theorems are satisfiable ---------- *)
 Definition ex_before : list con := [ mkc [1]%Z (-1) GE ].      (* x >= 1 *)
 
